@@ -16,6 +16,7 @@ import (
 	"os/exec"
 	"path/filepath"
 	"runtime"
+	"runtime/debug"
 	"sort"
 	"strconv"
 	"strings"
@@ -65,6 +66,10 @@ func runWorker(spec *props.Spec, tier string, seed uint64, offset, stride, runs 
 	cov := props.NewCov()
 	out := &workerOut{Cov: cov}
 	var dig bytes.Buffer
+	manualGC := spec.WorkerProcs == "1"
+	if manualGC {
+		debug.SetGCPercent(-1)
+	}
 	limit := -1
 	if s := os.Getenv("VERIF_SELFTEST_LIMIT"); s != "" {
 		limit, _ = strconv.Atoi(s)
@@ -74,6 +79,12 @@ func runWorker(spec *props.Spec, tier string, seed uint64, offset, stride, runs 
 			break
 		}
 		r := core.NewRng(core.Mix(seed, spec.ID, uint64(i)))
+		if manualGC {
+			// collections only at run boundaries: when the collector empties
+			// per-P caches (sync.Pool) is then part of the controlled schedule
+			runtime.GC()
+			runtime.GC()
+		}
 		vs := spec.Run(r, uint64(i), seed, tier, cov)
 		out.Runs++
 		one := fmt.Sprintf("%d:%d:%d:%d:%s;", i, r.Draws, cov.Evaluations, cov.Steps, cov.Digest)
@@ -176,6 +187,7 @@ func replay(path string) int {
 	if spec == nil {
 		die(2, "replay: property %s is not served by this binary", rf.Property)
 	}
+	pinProcs(spec)
 	vs := spec.Check(rf.Case, props.NewCov())
 	same := false
 	for _, v := range vs {
@@ -202,6 +214,7 @@ func orchestrate(prop, tier string) int {
 	if spec == nil {
 		die(2, "unknown property %s", prop)
 	}
+	pinProcs(spec)
 	seed := seedEnv()
 	dir := verifDir()
 	known, err := props.LoadKnown(filepath.Join(dir, "known_findings.txt"))
@@ -264,7 +277,11 @@ func orchestrate(prop, tier string) int {
 		go func(w int) {
 			defer wg.Done()
 			cmd := exec.Command(self, "worker", prop, tier, fmt.Sprint(seed), fmt.Sprint(w), fmt.Sprint(workers), fmt.Sprint(runs))
-			cmd.Env = append(os.Environ(), "GOMAXPROCS=2")
+			wp := spec.WorkerProcs
+			if wp == "" {
+				wp = "2"
+			}
+			cmd.Env = append(os.Environ(), "GOMAXPROCS="+wp)
 			var so, se bytes.Buffer
 			cmd.Stdout, cmd.Stderr = &so, &se
 			if err := cmd.Start(); err != nil {
@@ -327,7 +344,11 @@ func orchestrate(prop, tier string) int {
 		if k > len(outs[0].RunDigests) {
 			k = len(outs[0].RunDigests)
 		}
-		for _, procs := range []string{"1", "7"} {
+		stp := spec.SelfTestProcs
+		if stp == nil {
+			stp = []string{"1", "7"}
+		}
+		for _, procs := range stp {
 			cmd := exec.Command(self, "worker", prop, tier, fmt.Sprint(seed), "0", fmt.Sprint(workers), fmt.Sprint(runs))
 			cmd.Env = append(os.Environ(), "GOMAXPROCS="+procs, fmt.Sprintf("VERIF_SELFTEST_LIMIT=%d", k))
 			var so, se bytes.Buffer
@@ -348,17 +369,19 @@ func orchestrate(prop, tier string) int {
 				}
 			}
 		}
-		extra["determinism_selftest"] = fmt.Sprintf("%d runs re-executed in 2 fresh processes (GOMAXPROCS 1 and 7): per-run digests of PRNG draws, events, result hashes and clauses identical", k)
+		extra["determinism_selftest"] = fmt.Sprintf("%d runs re-executed in %d fresh processes (GOMAXPROCS %v): per-run digests of PRNG draws, events, result hashes and clauses identical", k, len(stp), stp)
 	}
 	posts := spec.Posts
 	if spec.Post != nil {
 		posts = append([]func(uint64, string, *props.Cov) ([]*props.Violation, map[string]any, error){spec.Post}, posts...)
 	}
+	var infra []error
 	for _, post := range posts {
 		vs, ex, err := post(seed, tier, total)
 		if err != nil {
-			fmt.Fprintf(os.Stderr, "INFRASTRUCTURE: %v\n", err)
-			return 2
+			// a stage that could not run must not hide what the others found
+			infra = append(infra, err)
+			continue
 		}
 		all = append(all, vs...)
 		for k, v := range ex {
@@ -399,6 +422,12 @@ func orchestrate(prop, tier string) int {
 		fmt.Printf("KNOWN-FINDING: property=%s %s %s\n", prop, id, knownHit[id])
 	}
 
+	for _, e := range infra {
+		fmt.Fprintf(os.Stderr, "INFRASTRUCTURE: %v\n", e)
+	}
+	if len(infra) > 0 && rc == 0 {
+		return 2
+	}
 	// 4. evidence
 	wall := time.Since(t0).Seconds()
 	writeEvidence(spec, dir, tier, seed, total, doneRuns, wall, nviol, knownHit, extra)
@@ -539,5 +568,16 @@ func writeEvidence(spec *props.Spec, dir, tier string, seed uint64, cov *props.C
 	os.MkdirAll(filepath.Join(dir, "evidence"), 0o755)
 	if err := os.WriteFile(filepath.Join(dir, "evidence", spec.ID+".json"), append(b, '\n'), 0o644); err != nil {
 		die(2, "evidence: %v", err)
+	}
+}
+
+// pinProcs applies the property's GOMAXPROCS to this process too (replay and
+// shrinking execute cases in-process).
+func pinProcs(spec *props.Spec) {
+	if n, err := strconv.Atoi(spec.WorkerProcs); err == nil && n > 0 {
+		runtime.GOMAXPROCS(n)
+		if n == 1 {
+			debug.SetGCPercent(-1)
+		}
 	}
 }
